@@ -24,6 +24,50 @@ fn ord(e: &syn::Expr) -> Option<&'static str> {
     })
 }
 
+/// What the operation is for. Anything on a block or on the block list that is not one of the
+/// recognised shapes is `.unknown`, which the C05 theorem rejects.
+fn role_of(file: &str, func: &str, recv: &str, kind: &str) -> &'static str {
+    if func.starts_with("verif_") {
+        return ".audit";
+    }
+    let is_cas = kind == ".cas" || kind == ".casWeak";
+    match file {
+        "atomic_bucket.rs" => {
+            if recv == "self.head" {
+                if kind == ".load" && (func == "push_front" || func == "drop") {
+                    ".headLoad"
+                } else if is_cas && func == "push_front" {
+                    ".headCas"
+                } else {
+                    ".unknown"
+                }
+            } else if recv == "self.current" && kind == ".load" && func == "next" {
+                ".walkLoad"
+            } else if recv.ends_with(".next") && kind == ".load" && func == "drop" {
+                ".nextLoad"
+            } else if (recv == "length" || recv == "self.length()") && func == "try_inc_length" {
+                if kind == ".load" {
+                    ".lenLoad"
+                } else if is_cas {
+                    ".lenCas"
+                } else {
+                    ".unknown"
+                }
+            } else {
+                ".unknown"
+            }
+        }
+        _ => {
+            let counters = ["self.memory_usage", "self.max_memory_usage", "self.bucket_capacity", "self.key"];
+            if counters.contains(&recv) {
+                ".counter"
+            } else {
+                ".unknown"
+            }
+        }
+    }
+}
+
 impl<'ast> Visit<'ast> for V {
     fn visit_impl_item_fn(&mut self, f: &'ast syn::ImplItemFn) {
         let old = std::mem::replace(&mut self.func, f.sig.ident.to_string());
@@ -56,8 +100,9 @@ impl<'ast> Visit<'ast> for V {
                     (_, [a]) => (*a, ".other"),
                     _ => (".other", ".other"),
                 };
+                let role = role_of(&self.file, &self.func, &recv, kind);
                 self.ops.push(format!(
-                    "{{ file := {}, func := {}, loc := {}, kind := {}, ord := {}, failOrd := {} }}",
+                    "{{ role := {role}, file := {}, func := {}, loc := {}, kind := {}, ord := {}, failOrd := {} }}",
                     lean::s(&self.file),
                     lean::s(&self.func),
                     lean::s(&recv),
